@@ -222,22 +222,29 @@ let spec_val (t : ty) (d : dm) : string option =
      | Some h -> Some (spec_views t v ^ "|RB=same|B=ok:" ^ h ^ "|RT=same")
      | None -> Some (spec_views t v ^ "|RB=same|B=encfail|RT=-"))
 
-(* classes of a deviation: the quirks whose removal changes the pinned model's prediction; only
-   meaningful when the implementation does what the pinned model says *)
-let relevant (f : quirks -> string) : string list =
-  let base = f pinned and base0 = f qoff in
+(* ------------------------------------------------------------------ which switches does the tree exhibit *)
+(* The unchanged tree exhibits [pinned].  A tree in which some of the defects have been repaired
+   exhibits [pinned] with those switches off: per case we look for the pinned record, the fully
+   repaired one, and every record with one or two switches turned off, and predict with the first
+   that reproduces the implementation's observation (a regression that only partly resembles a
+   finding matches none of them and is reported). *)
+let candidates (table : (string * (quirks -> bool -> quirks)) list) : quirks list =
+  let singles = List.map (fun (_, set) -> set pinned false) table in
+  let doubles = List.concat (List.mapi (fun i (_, s1) ->
+      List.filteri (fun j _ -> j > i) table |> List.map (fun (_, s2) -> s2 (s1 pinned false) false)) table) in
+  (qoff :: singles) @ doubles
+
+let settle table (f : quirks -> string) (impl : string) : quirks option =
+  if f pinned = impl then Some pinned else List.find_opt (fun q -> f q = impl) (candidates table)
+
+(* classes of a deviation: the switches that are on in [q] and matter for this case *)
+let relevant_at table (q : quirks) (f : quirks -> string) : string list =
+  let base = f q and base0 = f qoff in
   List.filter_map (fun (name, set) ->
-      if f (set pinned false) <> base || f (set qoff true) <> base0 then Some name else None) quirk_table
+      if set q false <> q && (f (set q false) <> base || f (set qoff true) <> base0) then Some name else None) table
 
 let outcome (s : string) : string =
   if String.length s >= 2 && String.sub s 0 2 = "ok" then "ok" else s
-
-(* the generated code's deviations are modelled up to the outcome (ok / err / panic) *)
-let relevant_gen (f : quirks -> string) : string list =
-  let base = outcome (f pinned) and base0 = outcome (f qoff) in
-  List.filter_map (fun (name, set) ->
-      if outcome (f (set pinned false)) <> base || outcome (f (set qoff true)) <> base0 then Some name else None)
-    gen_quirk_table
 
 let split_bar s = String.split_on_char '|' s
 
@@ -253,13 +260,20 @@ let component_classes (impl : string) (want : string) : string list =
           let tag = (match String.index_opt x '=' with Some i -> String.sub x 0 i | None -> x) in
           ["unexplained_" ^ tag]) a b)
 
-let verdict_against (impl : string) (want : string) (model_pinned : string) (rel : unit -> string list) : string =
-  if impl = want then "ok"
-  else if impl = model_pinned then
-    (match rel () with
-     | [] -> "fail:" ^ String.concat "," (component_classes impl want)
-     | l -> "fail:" ^ String.concat "," l)
-  else "fail:" ^ String.concat "," (component_classes impl want)
+(* model observation and verdict for one engine: [proj] selects the part of an observation the
+   property at hand judges *)
+let judge table (f : quirks -> string) (proj : string -> string) (impl : string) (want : string) : string * string =
+  match settle table f impl with
+  | Some q ->
+    let verdict =
+      if proj impl = proj want then "ok" else
+        (match relevant_at table q (fun q -> proj (f q)) with
+         | [] -> "fail:" ^ String.concat "," (component_classes (proj impl) (proj want))
+         | l -> "fail:" ^ String.concat "," l) in
+    (f q, verdict)
+  | None ->
+    (f pinned, if proj impl = proj want then "ok"
+     else "fail:" ^ String.concat "," (component_classes (proj impl) (proj want)))
 
 let level_of = function "r" -> LRepr | _ -> LType
 
@@ -269,6 +283,8 @@ let strip_r (s : string) : string =
   let n = String.length s in
   let rec find i = if i + 3 > n then n else if String.sub s i 3 = "|R=" then i else find (i + 1) in
   String.sub s 0 (find 0)
+
+let id_proj (s : string) = s
 
 let () =
   iter_lines (fun line ->
@@ -283,43 +299,52 @@ let () =
         (match op with
          | "val" ->
            let f q = val_obs Bind q t d in
-           let model = f pinned in
-           if obs = "schemaerr" || obs = "protoerr" then out model "fail:harness_schema"
-           else if not (wf t) then out model "skip"
+           if obs = "schemaerr" || obs = "protoerr" then out (f pinned) "fail:harness_schema"
+           else if not (wf t) then out (f pinned) "skip"
            else (match spec_val t d with
-               | None -> out model "fail:generator_nonconforming"
+               | None -> out (f pinned) "fail:generator_nonconforming"
                | Some want ->
                  (match conforms_t t d with
-                  | Some v when not (has_type t v) -> out model "fail:spec_has_type"
-                  | _ -> out model (verdict_against obs want model (fun () -> relevant f))))
+                  | Some v when not (has_type t v) -> out (f pinned) "fail:spec_has_type"
+                  | _ -> let (m, v) = judge quirk_table f id_proj obs want in out m v))
          | "build" ->
            let f q = build_obs Bind q lv t d in
-           let model = f pinned in
-           if obs = "schemaerr" || obs = "protoerr" then out model "fail:harness_schema"
-           else if not (wf t) then out model "skip"
-           else out model (verdict_against (strip_r obs) (strip_r (spec_build lv t d)) (strip_r model)
-                             (fun () -> relevant (fun q -> strip_r (f q))))
+           if obs = "schemaerr" || obs = "protoerr" then out (f pinned) "fail:harness_schema"
+           else if not (wf t) then out (f pinned) "skip"
+           else let (m, v) = judge quirk_table f strip_r obs (spec_build lv t d) in out m v
          | "both" ->
            let fb q = build_obs Bind q lv t d in
-           let mb = fb pinned in
-           let mg = build_obs Gen pinned lv t d in
-           let model = mb ^ "#" ^ mg in
-           if not (wf t && gen_supported t) then out model "skip" else
+           let fg q = build_obs Gen q lv t d in
+           if not (wf t && gen_supported t) then out (fb pinned ^ "#" ^ fg pinned) "skip" else
            (match String.index_opt obs '#' with
-            | None -> out model ("fail:" ^ (if obs = "nobuild" then "gen_does_not_compile" else "harness_schema"))
+            | None -> out (fb pinned ^ "#" ^ fg pinned)
+                        ("fail:" ^ (if obs = "nobuild" then "gen_does_not_compile" else "harness_schema"))
             | Some i ->
               let ob = String.sub obs 0 i and og = String.sub obs (i + 1) (String.length obs - i - 1) in
               let want = spec_build lv t d in
+              let (mb, vb) = judge quirk_table fb id_proj ob want in
+              (* the generated code's deviations are modelled up to the outcome (ok / err / panic) *)
+              let (mg, vg) =
+                (match settle gen_quirk_table fg og with
+                 | Some q -> (fg q, if og = want then "ok" else
+                                (match relevant_at gen_quirk_table q fg with
+                                 | [] -> "fail:" ^ String.concat "," (List.map (fun c -> "gen_" ^ c) (component_classes og want))
+                                 | l -> "fail:" ^ String.concat "," l))
+                 | None ->
+                   if og = want then (fg pinned, "ok") else
+                   (match settle gen_quirk_table (fun q -> outcome (fg q)) (outcome og) with
+                    | Some q ->
+                      (match relevant_at gen_quirk_table q (fun q -> outcome (fg q)) with
+                       | [] -> (fg pinned, "fail:" ^ String.concat "," (List.map (fun c -> "gen_" ^ c) (component_classes og want)))
+                       | l -> (fg pinned, "fail:" ^ String.concat "," l))
+                    | None -> (fg pinned, "fail:" ^ String.concat "," (List.map (fun c -> "gen_" ^ c) (component_classes og want))))) in
+              let model = mb ^ "#" ^ mg in
               if ob = og then out model "ok"
-              else if og = want then
-                out model (verdict_against ob want mb (fun () -> relevant fb))
               else begin
-                (* the generated code departs from the specification *)
-                let fg q = build_obs Gen q lv t d in
-                let rel = if outcome og = outcome mg then relevant_gen fg else [] in
-                match rel with
-                | [] -> out model ("fail:" ^ String.concat ","
-                                     (List.map (fun c -> "gen_" ^ c) (component_classes og want)))
+                let cls v = if String.length v > 5 && String.sub v 0 5 = "fail:" then
+                    String.split_on_char ',' (String.sub v 5 (String.length v - 5)) else [] in
+                match cls vb @ cls vg with
+                | [] -> out model "fail:engines_differ"
                 | l -> out model ("fail:" ^ String.concat "," l)
               end)
          | _ -> ())
